@@ -95,7 +95,7 @@ def evaluate__comparison_operators(self: XPathToken, context: ta.ContextType = N
     op = OPERATORS_MAP[self.symbol]
     try:
         return any(op(x1, x2) for x1, x2 in self.iter_comparison_data(context))
-    except (TypeError, ValueError) as err:
+    except (TypeError, ValueError, decimal.InvalidOperation) as err:
         if isinstance(context, XPathSchemaContext):
             return False
         elif isinstance(err, ElementPathTypeError):
